@@ -204,6 +204,8 @@ class ShimQueue:
         item = self.items.popleft()
         if self.shared:
             self.s.emit('get', item)
+            # the consumer holds the item but has not handed it on yet: other threads may run in this window
+            self.s.yield_point('got')
         return item
 
     def get_nowait(self):
